@@ -1,28 +1,33 @@
-\* The same bounds with the log-id check the property needs: every invariant holds.
 SPECIFICATION MCSpec
 CONSTANTS
   Author = {"a1"}
   Mallory = {"mx"}
-  Log = {"l1", "l2"}
-  MaxSeq = 2
-  PrunePositions <- LastOfFirstAuthor
-  MaxDeliver = 4
-  MaxInFlight = 1
-  ForgeBudget = 1
-  Classes <- OnlyCrossLog
-  FineIngest = FALSE
+  Log = {"l1"}
+  MaxSeq = 3
+  PrunePositions <- NonZeroPositions
+  MaxDeliver = 3
+  MaxInFlight = 3
+  ForgeBudget = 0
+  Classes <- AllClasses
+  FineIngest = TRUE
   Batch = FALSE
-  Worker = {}
+  Worker = {"w1", "w2"}
   Variant_ReadLatestBeforeBegin = FALSE
   Defect_PruneAfterFailedIngest = FALSE
   Defect_PruneFlagSkipsLatestCheck = FALSE
   Defect_LogIdFromTopicUnchecked = FALSE
 INVARIANTS
   C01_OnlyAuthenticStored
+  C01_InvalidNeverCompleted
   C03_UniqueSeq
   C03_Linked
   C05_NoResurrection
 PROPERTIES
+  MC_C01_RejectLeavesNoTrace
+  MC_C03_HeightMonotone
+  MC_C03_RejectsNonExtending
   MC_C04_DeletesOnlyByValidPrune
+  MC_C04_ValidPruneDeletesExactly
+  MC_C05_NoInsertBelowPrunePoint
 VIEW NoHistView
 CHECK_DEADLOCK FALSE
